@@ -287,15 +287,19 @@ class GlobalRngTouched(AssertionError):
 class SymRng:
     """Every draw is a fresh symbolic variable constrained only by the Generator contract."""
 
-    def __init__(self, sx, name='rng', preset=None):
+    def __init__(self, sx, name='rng', preset=None, extremes=False):
         self.sx, self.name, self.n = sx, name, 0
         self.log = []
         self.preset = preset or {}  # draw index -> value: a concrete split of the first draws (partitioning of one obligation)
+        self.extremes = extremes    # restrict every integer draw to the smallest or the largest value of its interval (a stated bound)
 
     def _fresh(self, lo, hi):
         v = self.sx.int(f'{self.name}{self.n}', lo, hi)
         if self.n in self.preset:
             self.sx.assume(v == self.preset[self.n])
+        elif self.extremes:
+            from .symx import sym_or
+            self.sx.assume(sym_or(v == lo, v == hi))
         self.n += 1
         self.log.append(v)
         return v
@@ -333,7 +337,15 @@ class SymRng:
             raise ValueError('Cannot take a larger sample than population when replace is False')
         idx = []
         for _ in range(k):
-            i = self._fresh(0, n - 1)
+            if self.extremes and not replace and k > 1:
+                # a sample of k distinct indices cannot sit on two extreme values: the k smallest and k largest indices are allowed
+                from .symx import sym_or
+                ext, self.extremes = self.extremes, False
+                i = self._fresh(0, n - 1)
+                self.extremes = ext
+                self.sx.assume(sym_or(i < k, i >= n - k))
+            else:
+                i = self._fresh(0, n - 1)
             if not replace:
                 for j in idx:
                     self.sx.assume(i != j)
